@@ -8,7 +8,8 @@ int g_nhist;
 const char* opc_name[NOPC] = {"lock+rmw",  "lock+rmw+unlock()", "try_lock",  "try_lock_for", "try_lock_until", "load",
                               "store",     "operator=",         "modify",    "modify(ret)",  "lock_shared",
                               "try_lock_shared", "try_lock_shared_for", "try_lock_shared_until", "const lock()", "read",
-                              "read(ret)", "modify_detach",     "modify_async", "exchange",   "compare_exchange", "operator T()"};
+                              "read(ret)", "modify_detach",     "modify_async", "exchange",   "compare_exchange", "operator T()", "try_lock else same handle=lock()",
+                              "try_lock_shared else same handle=lock_shared()"};
 
 // ---------------------------------------------------------------- linearizability
 static char g_linmsg[400];
@@ -158,6 +159,15 @@ void add_exclusive_ops(Instance& in, bool enabled)
         auto h = w.try_lock();
         use_exclusive(h, hi, &w.m_mutex, enabled);
     };
+    in.ops[X_RETRY] = [enabled](void* p, int) {
+        // a handle that came back null from a try is reused for a blocking acquisition
+        W& w = *(W*)p;
+        int hi = h_begin(X_RETRY);
+        auto h = w.try_lock();
+        if (!h) h = w.lock();
+        MC_CHECK(bool(h), "null-handle", "handle null after being assigned lock()");
+        use_exclusive(h, hi, &w.m_mutex, enabled);
+    };
     if constexpr (is_timed<M>::value) {
         in.ops[X_TRY_FOR] = [enabled](void* p, int) {
             W& w = *(W*)p;
@@ -227,6 +237,14 @@ void add_shared_ops(Instance& in, bool enabled)
         const W& w = *(const W*)p;
         int hi = h_begin(S_TRY);
         auto h = w.try_lock_shared();
+        use_shared(h, hi, &w.m_mutex, enabled);
+    };
+    in.ops[S_RETRY] = [enabled](void* p, int) {
+        const W& w = *(const W*)p;
+        int hi = h_begin(S_RETRY);
+        auto h = w.try_lock_shared();
+        if (!h) h = w.lock_shared();
+        MC_CHECK(bool(h), "null-handle", "handle null after being assigned lock_shared()");
         use_shared(h, hi, &w.m_mutex, enabled);
     };
     if constexpr (is_timed<M>::value) {
